@@ -290,6 +290,22 @@ def run_real(spec):
 
     res = Result()
     rng = core.rng_for("C14r", spec["tier"], spec["seed"], spec["shard"])
+    # the process has used the very same spec strings before, in a group whose workers run the thread model: what a later
+    # group's workers run is decided by that later group
+    first = execnet.Group()
+    try:
+        if spec["spec"] == "popen":
+            fgw = first.makegateway("popen")
+        elif spec["spec"] == "python":
+            fgw = first.makegateway(f"popen//python={sys.executable}")
+        else:
+            first.makegateway("popen//id=m//execmodel=thread")
+            fgw = first.makegateway("popen//via=m")
+        if fgw.remote_status().execmodel != "thread":
+            res.violation("worker-model-not-the-groups", f"first group (defaults): {fgw.remote_status().execmodel}")
+        res.count("spec_strings_used_before_by_a_thread_model_group")
+    finally:
+        first.terminate(2.0)
     for run in range(spec["runs"]):
         if res.enough(8):
             break
